@@ -361,7 +361,7 @@ package backend
 
 // the predicate handed to sort.Search by FindEvents: position s+i holds a revision >= the target
 //@ func (*Ring).FindEvents$1(i) (result)
-//@   props C05
+//@   props C05 C19
 //@   requires holds(r) && ring_shape(r) && ring_nonnil(r) && 0 <= i && int64(i) < r.e-r.s
 //@   ensures [pred] result == (r.arr[(r.s+int64(i))-rbase(r.s+int64(i), r.l)].Revision >= revision)
 
@@ -369,8 +369,9 @@ package backend
 // otherwise return exactly the cached events with revision >= the target, in order.
 // fe_ret: what the cache lookup of this watch request returned (ghost assignment at the return)
 //@ ghost fe_ret Ref
+// (C19: the lookup reads s, e and the slots, all under the ring's lock)
 //@ func (*Ring).FindEvents(revision) (ret)
-//@   props C05
+//@   props C05 C19
 //@   assume_ensures [ghost-assignment] fe_ret == ret
 //@   ensures [newest-bounds-a-request-inside-the-window] !ret.empty && !ret.high ==> ret.newest != nil && revision <= ret.newest.Revision
 // C06: a watch reads the cache only after it has subscribed to the hub, so that an event is either
